@@ -17,6 +17,10 @@
  * o<d> submit(d) with calloc failing (if it is called), m/M, w<i>/W<i>.
  *
  *   fine <repaired> <nworkers> <rcspec> <seed> <pspur%> <op>*
+ *   finev …   the same, additionally printing the fine schedule taken (`ftrace=`) and a snapshot after EVERY fine step
+ *             (`fsnaps=`) in the vocabulary of `sqfsmodel c09 frun` (Model/C09PoolFine.lean): thread phases `L:<pc>` (holds
+ *             the mutex, acquired from <pc>), `U:…` (has unlocked; main: the pending tail with the value it carries,
+ *             worker: the item it left with), the lazily updated fields as they are in the real struct, `mf=` mutex free
  *
  * Fine mode of the scheduler (shim_sched.h: additional scheduling points right after every lock acquisition and
  * right after every unlock): a seeded random schedule of the API script <op>* at that granularity.  Every
@@ -544,17 +548,138 @@ static int all_coarse(void)
 }
 
 static int spur_pending[MAXW + 1];
+static char lk_from[MAXW + 1][40], tail_desc[MAXW + 1][40];
+static FILE *ftrace_f, *fsnaps_f;            /* non-NULL in verbose mode */
+
+static void fsnap_thread(FILE *f, int tid)
+{
+	int fp = vs_fine_point(tid), i = tid - 1;
+	if (fp == 1) {
+		fprintf(f, "L:%s", lk_from[tid]);
+		return;
+	}
+	if (fp == 2) {
+		fputs(tail_desc[tid], f);
+		return;
+	}
+	if (tid == 0) {
+		put_main(f);
+		return;
+	}
+	switch (vs_kind(tid)) {
+	case VS_START: fputs("created", f); break;
+	case VS_LOCK:
+		if (fin[i].valid)
+			fprintf(f, "fin:%d:%d", fin[i].d, fin[i].rc);
+		else
+			fputs("start", f);
+		break;
+	case VS_COND: fprintf(f, "waitQ%d", vs_signalled(tid)); break;
+	case VS_YIELD: fprintf(f, "work:%d", cur_data[i]); break;
+	case VS_EXITED: fputs("exit", f); break;
+	default: fputs("?", f);
+	}
+}
+
+/* snapshot in the vocabulary of the fine model */
+static void fsnapshot(FILE *f)
+{
+	int i;
+	if (destroyed) {
+		fputs("destroyed m=", f);
+		fsnap_thread(f, 0);
+		fputs(" w=", f);
+	} else {
+		work_item_t *r;
+		int n = 0;
+		fputs("Q=", f); put_items(f, g_pool->queue);
+		fputs(" D=", f); put_items(f, g_pool->done);
+		fputs(" S=", f); put_items(f, g_pool->safe_done);
+		for (r = g_pool->recycle; r != NULL && n < 100000; r = r->next)
+			++n;
+		fprintf(f, " nt=%zu nd=%zu ic=%zu st=%d rec=%d m=", g_pool->next_ticket, g_pool->next_dequeue_ticket,
+			g_pool->item_count, g_pool->status, n);
+		fsnap_thread(f, 0);
+		fputs(" w=", f);
+	}
+	for (i = 0; i < g_n; ++i) {
+		if (i)
+			fputc(',', f);
+		fsnap_thread(f, i + 1);
+	}
+	fprintf(f, " r=%s", last_ret[0] ? last_ret : "-");
+	if (!destroyed)
+		fprintf(f, " mf=%d", vs_mutexes_held() == 0);
+}
 
 /* one fine step of thread tid (must be enabled); emits the derived coarse choice if this segment carries one */
 static int fine_step(int tid, int spur, const char *optok)
 {
 	int kind = vs_kind(tid), fp = vs_fine_point(tid);
-	if (kind == VS_LOCK && tid > 0)
-		fin[tid - 1].valid = 0;
+	int peek = -1;
+	size_t nd_before = 0;
+	last_ret[0] = 0;
+	if (fp == 0 && (kind == VS_LOCK || kind == VS_COND)) {
+		/* (a): remember from which blocking point the mutex is acquired */
+		if (kind == VS_COND)
+			snprintf(lk_from[tid], sizeof(lk_from[tid]), tid == 0 ? "deqWait%d" : "waitQ%d", vs_signalled(tid));
+		else if (tid > 0 && fin[tid - 1].valid)
+			snprintf(lk_from[tid], sizeof(lk_from[tid]), "fin:%d:%d", fin[tid - 1].d, fin[tid - 1].rc);
+		else if (tid > 0)
+			snprintf(lk_from[tid], sizeof(lk_from[tid]), "start");
+		else if (cur_op == OP_SUBMIT || cur_op == OP_SUBMIT_OOM)
+			snprintf(lk_from[0], sizeof(lk_from[0]), "submitLock:%d", cur_arg);
+		else if (cur_op == OP_SETPTR)
+			snprintf(lk_from[0], sizeof(lk_from[0]), "setPtrLock:%d:%d", cur_arg, cur_arg2);
+		else
+			snprintf(lk_from[0], sizeof(lk_from[0]), "%s", cur_op == OP_DEQUEUE ? "deqLock" : cur_op == OP_STATUS ? "statusLock" : "destroyLock");
+	}
+	if (fp == 1 && g_pool != NULL) {
+		/* (b): what the critical section is about to take */
+		if (tid == 0) {
+			nd_before = g_pool->next_dequeue_ticket;
+			if (g_pool->done != NULL && g_pool->done->ticket_number == nd_before)
+				peek = (int)((unsigned int *)g_pool->done->data - vals);
+		} else {
+			fin[tid - 1].valid = 0;              /* the worker stores its item: no longer `finishing` */
+			if (g_pool->queue != NULL)
+				peek = (int)((unsigned int *)g_pool->queue->data - vals);
+		}
+	}
 	if (kind == VS_COND)
 		spur_pending[tid] = spur;
 	if (vs_step(tid, spur) != 0)
 		return -1;
+	if (ftrace_f != NULL) {
+		if (optok != NULL)
+			fprintf(ftrace_f, " %s", optok);
+		else if (tid == 0)
+			fputs(spur ? " M" : " m", ftrace_f);
+		else
+			fprintf(ftrace_f, spur ? " W%d" : " w%d", tid - 1);
+	}
+	if (fp == 1 && vs_fine_point(tid) == 2 && g_pool != NULL) {
+		/* the thread has unlocked: describe its pending tail */
+		if (tid > 0) {
+			if (g_pool->status != 0)
+				snprintf(tail_desc[tid], sizeof(tail_desc[tid]), "U:null");
+			else
+				snprintf(tail_desc[tid], sizeof(tail_desc[tid]), "U:%d", peek);
+		} else if (cur_op == OP_SUBMIT || cur_op == OP_SUBMIT_OOM) {
+			snprintf(tail_desc[0], sizeof(tail_desc[0]), "U:submit:%d", g_pool->status);
+		} else if (cur_op == OP_DEQUEUE) {
+			if (g_pool->next_dequeue_ticket != nd_before)
+				snprintf(tail_desc[0], sizeof(tail_desc[0]), "U:deq:%d", peek);
+			else
+				snprintf(tail_desc[0], sizeof(tail_desc[0]), "U:deq:null");
+		} else if (cur_op == OP_STATUS) {
+			snprintf(tail_desc[0], sizeof(tail_desc[0]), "U:status:%d", g_pool->status);
+		} else if (cur_op == OP_DESTROY) {
+			snprintf(tail_desc[0], sizeof(tail_desc[0]), "U:destroy");
+		} else {
+			snprintf(tail_desc[0], sizeof(tail_desc[0]), "U:setptr");
+		}
+	}
 	if (fp == 1) {                                  /* (b): the critical section ran */
 		if (tid == 0)
 			emit(spur_pending[0] ? "M" : "m", 0);
@@ -572,6 +697,10 @@ static int fine_step(int tid, int spur, const char *optok)
 	}
 	if (vs_mutexes_held_coarse() != 0)
 		errflags |= 1;
+	if (fsnaps_f != NULL) {
+		fputs(" | ", fsnaps_f);
+		fsnapshot(fsnaps_f);
+	}
 	return 0;
 }
 
@@ -583,7 +712,9 @@ static void run_fine(char *line)
 	     *seed = strtok_r(NULL, " \n", &save), *ps = strtok_r(NULL, " \n", &save);
 	unsigned long long x;
 	int nops = 0, next = 0, dl = 0, steps = 0, last = -1, pspur, t;
-	(void)cmd;
+	int verbose = cmd != NULL && strcmp(cmd, "finev") == 0;
+	char *ftrace_buf = NULL, *fsnaps_buf = NULL;
+	size_t ftrace_len = 0, fsnaps_len = 0;
 	if (!rep || !seed || !ps || !is_num(seed) || !is_num(ps) || setup(ns, rcs) != 0) {
 		puts("bad-op");
 		return;
@@ -597,6 +728,14 @@ static void run_fine(char *line)
 	n_derived = 0;
 	memset(spur_pending, 0, sizeof(spur_pending));
 	vs_set_fine(1);
+	ftrace_f = fsnaps_f = NULL;
+	if (verbose) {
+		ftrace_f = open_memstream(&ftrace_buf, &ftrace_len);
+		fsnaps_f = open_memstream(&fsnaps_buf, &fsnaps_len);
+		if (ftrace_f == NULL || fsnaps_f == NULL)
+			abort();
+		fsnapshot(fsnaps_f);
+	}
 	fputs("fine", stdout);
 	for (steps = 0; steps < 100000; ++steps) {
 		int cand[MAXW + 1], nc = 0, sp[MAXW + 1], nsp = 0, pick;
@@ -638,7 +777,6 @@ static void run_fine(char *line)
 				fputs(" bad-op", stdout);
 				break;
 			}
-			last_ret[0] = 0;
 			fine_step(0, 0, ops[next]);
 			++next;
 		} else {
@@ -660,6 +798,14 @@ static void run_fine(char *line)
 	snapshot(stdout, 0);
 	printf(" # dl=%d steps=%d derived=%s rets=%s", dl, steps, derived_len ? derived : "-", retlog_len ? retlog : "-");
 	put_history(stdout);
+	if (verbose) {
+		fclose(ftrace_f);
+		fclose(fsnaps_f);
+		printf(" ## ftrace=%s ## fsnaps=%s", ftrace_len ? ftrace_buf + 1 : "-", fsnaps_buf);
+		free(ftrace_buf);
+		free(fsnaps_buf);
+		ftrace_f = fsnaps_f = NULL;
+	}
 	putchar('\n');
 	vs_kill_all();
 }
@@ -792,7 +938,7 @@ int main(void)
 	while (fgets(line, sizeof(line), stdin)) {
 		if (strncmp(line, "cfail ", 6) == 0)
 			run_cfail(line);
-		else if (strncmp(line, "fine ", 5) == 0)
+		else if (strncmp(line, "fine ", 5) == 0 || strncmp(line, "finev ", 6) == 0)
 			run_fine(line);
 		else
 			run_line(line);
